@@ -15,6 +15,7 @@ record x mutation set).
 """
 import json
 import os
+import shutil
 import subprocess
 import sys
 import threading
@@ -129,7 +130,21 @@ def prepare_replay(art):
 def run(chk, tier, jobs, deadline):
     chk.assumptions += ASSUME
     msgfamily.ensure_pki()
-    exe = harnesses.build_explorer_harness("h_wire", variant="asan", extra_wraps=WRAPS)
+    canon = harnesses.build_explorer_harness("h_wire", variant="asan", extra_wraps=WRAPS)
+    # run a private copy: a concurrent build for another tree (VERIF_REPO) replaces build/bin/h_wire.asan
+    os.makedirs(harnesses.RUN_DIR, exist_ok=True)
+    exe = os.path.join(harnesses.RUN_DIR, "h_wire.asan.%d" % os.getpid())
+    shutil.copy2(canon, exe)
+    try:
+        _run(chk, tier, jobs, deadline, exe, canon)
+    finally:
+        try:
+            os.unlink(exe)
+        except OSError:
+            pass
+
+
+def _run(chk, tier, jobs, deadline, exe, canon):
     env = _env()
     envs = "ASAN_OPTIONS='%s' UBSAN_OPTIONS='%s' " % (env["ASAN_OPTIONS"], env["UBSAN_OPTIONS"])
     dl = deadline or (110 if tier == "quick" else 1700)
@@ -206,7 +221,7 @@ def run(chk, tier, jobs, deadline):
                     chk.finding(sig, "the receiving process died (%s, status %s) while handling this input  [case: %s]\n%s" %
                                 (ln.get("kind"), ln.get("status"), one, ln.get("stderr", "")[:1800]),
                                 dict(harness="h_wire.asan", build="asan", case=one, stderr=ln.get("stderr", "")[:3000],
-                                     replay_cmd="%s%s --one '%s'" % (envs, exe, one)))
+                                     replay_cmd="%s%s --one '%s'" % (envs, canon, one)))
                     tot["crashes"] += 1
                     per_cfg[cfg]["crashes"] += 1
                 elif t == "sample":
@@ -246,7 +261,7 @@ def run(chk, tier, jobs, deadline):
     for sig in sorted(best):
         _, text, one = best[sig]
         chk.finding(sig, text + "  [case: %s]" % one,
-                    dict(harness="h_wire.asan", build="asan", case=one, replay_cmd="%s%s --one '%s'" % (envs, exe, one)))
+                    dict(harness="h_wire.asan", build="asan", case=one, replay_cmd="%s%s --one '%s'" % (envs, canon, one)))
     # occurrences per signature (the harness prints only the first two of each per chunk)
     for s, c in sigcount.items():
         if s in chk.findings and c > chk.findings[s]["count"]:
